@@ -16,7 +16,7 @@ Fixpoint refn_in (e : expr) (r : rid) : bool :=
   end.
 Definition refn_args (es : list expr) (r : rid) : bool := existsb (fun x => refn_in x r) es.
 Definition refn_stmt (s : stmt) (r : rid) : bool :=
-  match s with SAssign e => refn_in e r | STry e h => refn_in e r || refn_in h r end.
+  match s with SAssign e => refn_in e r | STry e h => refn_in e r || refn_in h r | SFin e c => refn_in e r || refn_in c r end.
 Definition refn_body (b : list stmt) (r : rid) : bool := existsb (fun s => refn_stmt s r) b.
 
 Lemma refn_in_call c es r : refn_in (ECall c es) r = refn_args es r.
@@ -126,7 +126,7 @@ Proof.
       subst c. exists cl. split; assumption.
   - intros D inp me args locs rest r ds H c x Hin. destruct rest as [|s more]; simpl in H.
     + inversion H; subst. destruct Hin.
-    + destruct s as [e|e h].
+    + destruct s as [e|e h|e fc].
       * destruct (dr_expr g D inp me args locs e) as [[v|k|] d1] eqn:Da.
         -- destruct (dr_body g D inp me args (locs ++ [v]) more) as [rb d2] eqn:Db. inversion H; subst.
            apply in_app_or in Hin as [Hin|Hin].
@@ -168,6 +168,27 @@ Proof.
         -- inversion H; subst.
            destruct (IHe _ _ _ _ _ _ _ _ Da c x Hin) as [(A & B)|A]; [left; split; [exact A|]|now right].
            unfold refn_body; simpl. now rewrite B.
+      * destruct (dr_expr g D inp me args locs e) as [re d1] eqn:Da.
+        assert (He : forall y, In (RName c y) d1 -> (c = me /\ refn_body (SFin e fc :: more) y = true) \/ from_body D c y).
+        { intros y Hy. destruct (IHe _ _ _ _ _ _ _ _ Da c y Hy) as [(A & B)|A]; [left; split; [exact A|]|now right].
+          unfold refn_body; simpl. now rewrite B. }
+        destruct (dr_expr g D inp me args locs fc) as [rc d2] eqn:Dc.
+        assert (Hc : forall y, In (RName c y) d2 -> (c = me /\ refn_body (SFin e fc :: more) y = true) \/ from_body D c y).
+        { intros y Hy. destruct (IHe _ _ _ _ _ _ _ _ Dc c y Hy) as [(A & B)|A]; [left; split; [exact A|]|now right].
+          unfold refn_body; simpl. rewrite B. rewrite orb_true_r. reflexivity. }
+        assert (Hm : In (RName c x) (RMask :: d1 ++ d2) -> (c = me /\ refn_body (SFin e fc :: more) x = true) \/ from_body D c x).
+        { intros [Hi|Hi]; [discriminate|]. apply in_app_or in Hi as [Hi|Hi]; [now apply He|now apply Hc]. }
+        destruct re as [v|k|].
+        -- destruct rc as [w|k2|].
+           ++ destruct (dr_body g D inp me args (locs ++ [v]) more) as [rb d3] eqn:Db. inversion H; subst.
+              apply in_app_or in Hin as [Hin|Hin]; [now apply He|].
+              apply in_app_or in Hin as [Hin|Hin]; [now apply Hc|].
+              destruct (IHb _ _ _ _ _ _ _ _ Db c x Hin) as [(A & B)|A]; [left; split; [exact A|]|now right].
+              unfold refn_body in *; simpl. rewrite B. apply orb_true_r.
+           ++ inversion H; subst. now apply Hm.
+           ++ inversion H; subst. now apply Hm.
+        -- destruct rc as [w|k2|]; inversion H; subst; now apply Hm.
+        -- inversion H; subst. now apply He.
 Qed.
 
 Lemma rname_own f D inp j v ds c x :
